@@ -28,6 +28,16 @@ def gen_cases(tier):
         rng = family.rng_for(sd, PROP, i)
         shape = i % 8
         nv = rng.choice([2, 3, 3, 4, 4, 5, 6])
+        if i % 20 == 4:
+            # a context coefficient of 2^-20 (just under one millionth): far out in the box it still moves the bound by ~1e-3 per unit of
+            # the term's coefficient, so it is no rounding residue
+            x, y, z = "x", "y", "z"
+            k, m, sg = rng.choice([4, 8, 16]), rng.choice([1, 1, 2]), rng.choice([1, -1])
+            S = [({x: sg * k, z: rng.choice([1, -1])}, rng.choice([0, 1]))]
+            ctx = [({x: 1, y: -m * 2.0**-20}, 0), ({x: -1, y: m * 2.0**-20}, 0)] if rng.random() < 0.5 else [({x: sg, y: -m * 2.0**-20}, 0)]
+            cfgs = [(op, order, simp) for op in ("refine", "relax") for order in ORDERS for simp in (False, True)]
+            cases.append({"id": i + 1, "S": S, "ctx": ctx, "elim": [x], "cfgs": rng.sample(cfgs, 8) if tier == "quick" else cfgs})
+            continue
         if shape >= 6:
             cases.append(tlp_case(rng, i + 1, tier) if i % 16 >= 14 else kaykobad_case(rng, i + 1, tier))
             continue
